@@ -350,3 +350,47 @@ Definition show_res (o : res str) : str :=
   | RUnmodelled => [252%N]
   | ROutOfFuel => [253%N]
   end.
+
+(* ------------------------------------------------------------------ *)
+(* one level of merging: {<<: SOURCES, k1: v1, ...} with plain sources  *)
+(* (statement of C13_three_routes_agree_on_partial)                    *)
+(* ------------------------------------------------------------------ *)
+Fixpoint lookup_entry (k : str) (es : entries) : option node :=
+  match es with
+  | [] => None
+  | (k', v) :: r => if str_eqb k k' then Some v else lookup_entry k r
+  end.
+
+Fixpoint lookup_first (k : str) (srcs : list entries) : option node :=
+  match srcs with
+  | [] => None
+  | s :: r => match lookup_entry k s with Some v => Some v | None => lookup_first k r end
+  end.
+
+(* YAML: an explicit key wins, otherwise the first source that has the key *)
+Definition spec_lookup (k : str) (srcs : list entries) (expl : entries) : option node :=
+  match lookup_entry k expl with Some v => Some v | None => lookup_first k srcs end.
+
+Definition entry_plain (kv : str * node) : bool := negb (is_merge (fst kv)) && plain (snd kv).
+Definition keys (es : entries) : list str := map fst es.
+Definition value_texts (es : entries) : list (option str) := map (fun kv => node_text (snd kv)) es.
+
+(* `<<: *s` for one source, `<<: [*s1, *s2, ...]` otherwise; every source is an anchored map *)
+Definition merge_value (srcs : list entries) : node :=
+  match srcs with
+  | [s] => Al (Mp true s)
+  | _ => Sq false (map (fun s => Al (Mp true s)) srcs)
+  end.
+
+(* the domain: no key occurs twice among the sources (inside one or across two),
+   no source key is empty, sources and explicit entries hold plain values under
+   keys other than <<, explicit keys are pairwise different, and no explicit
+   VALUE is spelled like a merged key (overrideEntry scans value nodes when it
+   is handed an odd list index) *)
+Definition merge_simple (srcs : list entries) (expl : entries) : Prop :=
+  NoDup (flat_map keys srcs)
+  /\ (forall s, In s srcs -> forallb entry_plain s = true)
+  /\ ~ In [] (flat_map keys srcs)
+  /\ NoDup (keys expl)
+  /\ forallb entry_plain expl = true
+  /\ (forall k, In k (flat_map keys srcs) -> ~ In (Some k) (value_texts expl)).
